@@ -8,6 +8,7 @@ import (
 	"github.com/hashicorp/hcl/v2/ext/dynblock"
 	"github.com/hashicorp/hcl/v2/hcldec"
 	"github.com/hashicorp/hcl/v2/hclsyntax"
+	hcljson "github.com/hashicorp/hcl/v2/json"
 	"github.com/zclconf/go-cty/cty"
 
 	"hx/lib"
@@ -172,6 +173,176 @@ func directedExprs(cx *lib.Ctx) {
 				Desc:  "changing the content of the marked variable changes the error-free result, but a result does not carry the mark",
 				Input: fmt.Sprintf("%s\n-- secret = %s | %s", p.src, lib.DumpValue(p.a["secret"]), lib.DumpValue(p.b["secret"])),
 				Impl:  "run A: " + lib.DumpValue(vals[0]) + "\nrun B: " + lib.DumpValue(vals[1])})
+		}
+	}
+}
+
+// directedTwoMarks: the two-run check in the presence of a second marked variable that carries a *different*
+// mark — wherever the marks of several operands are merged (object keys, template parts, operands, arguments,
+// for-expression keys), in both operand orders and in both syntaxes, the mark of the varied variable must
+// survive next to the other one.
+func directedTwoMarks(cx *lib.Ctx) {
+	res := cx.Res
+	const otherMark = "bystander"
+	s := cty.StringVal
+	native := []string{
+		`{ (secret) = 1, lit = 2, (other) = 3 }`, `{ (other) = 1, lit = 2, (secret) = 3 }`, `{ (secret) = other }`, `{ (other) = secret }`,
+		`"${secret}-${other}"`, `"${other}-${secret}"`, `"${other}${secret}${other}"`, `"%{ if other != "" }${secret}%{ endif }"`, `"%{ for x in [other, secret] }${x}%{ endfor }"`, `"%{ for x in [secret, other] }${x}%{ endfor }"`,
+		`secret == other`, `other == secret`, `other != "" ? secret : "x"`, `secret != "" ? other : "x"`, `upper(secret) == upper(other)`, `join(other, [secret, "z"])`, `join(secret, [other, "z"])`,
+		`{for k in [secret, other] : k => 1}`, `{for k in [other, secret] : k => 1}`, `{for k, v in { a = secret, b = other } : v => k}`, `[for v in [other, secret] : upper(v)][1]`,
+		`[1, 2][secret == "a" ? 0 : 1] + length(other)`, `coalesce(other, secret)`, `coalesce("", secret, other)`, `[other, secret][1]`, `{ (other) = { (secret) = 1 } }`,
+	}
+	jsons := []string{
+		`{"${secret}": 1, "lit": 2, "${other}": 3}`, `{"${other}": 1, "lit": 2, "${secret}": 3}`, `{"${secret}": "${other}"}`, `{"${other}": "${secret}"}`,
+		`"${secret}-${other}"`, `"${other}-${secret}"`, `["${other}", "${secret}"]`, `{"k": "${other}", "${secret}": 1, "z": "${other}"}`, `{"${other}": {"${secret}": 1}}`,
+		`{"${secret}": 1, "${other}": 2, "${other}x": 3}`, `"%{ for x in [other, secret] }${x}%{ endfor }"`,
+	}
+	type parsed struct {
+		src  string
+		e    hcl.Expression
+		mode string
+	}
+	var all []parsed
+	for _, src := range native {
+		e, diags := hclsyntax.ParseExpression([]byte(src), "", hcl.InitialPos)
+		if diags.HasErrors() {
+			res.Fail(lib.Failure{Kind: "oracle", Key: "harness:directed-unparseable", Desc: diags.Error(), Input: src})
+			continue
+		}
+		all = append(all, parsed{src, e, "native"})
+	}
+	for _, src := range jsons {
+		e, diags := hcljson.ParseExpression([]byte(src), "case.json")
+		if diags.HasErrors() {
+			res.Fail(lib.Failure{Kind: "oracle", Key: "harness:directed-unparseable", Desc: diags.Error(), Input: src})
+			continue
+		}
+		all = append(all, parsed{src, e, "json"})
+	}
+	contents := [][2]cty.Value{{s("a"), s("b")}, {s(""), s("q")}, {s("a"), s("o")}}
+	for _, p := range all {
+		for _, c := range contents {
+			var vals [2]cty.Value
+			ok := true
+			for i := 0; i < 2; i++ {
+				ctx := &hcl.EvalContext{Variables: map[string]cty.Value{"secret": c[i].Mark(Mark), "other": s("o").Mark(otherMark)}, Functions: evalgen.Funcs()}
+				good := cx.Guard("directed-two-marks", p.src, func() {
+					v, d := p.e.Value(ctx)
+					if d.HasErrors() {
+						ok = false
+					}
+					vals[i] = v
+				})
+				if !good {
+					ok = false
+				}
+			}
+			res.Count("directed-two-marks:cases")
+			res.Case("directed-two-marks|"+p.mode+"|"+p.src+"|"+lib.DumpValue(c[0])+lib.DumpValue(c[1]), ok)
+			if !ok {
+				res.Count("directed-two-marks:error")
+				continue
+			}
+			ua, _ := vals[0].UnmarkDeep()
+			ub, _ := vals[1].UnmarkDeep()
+			if lib.DumpValue(ua) == lib.DumpValue(ub) {
+				res.Count("directed-two-marks:same-result")
+				continue
+			}
+			if !hasMark(vals[0]) || !hasMark(vals[1]) {
+				res.Fail(lib.Failure{Kind: "oracle", Key: "mark-lost:two-marks:" + p.mode + ":" + p.src,
+					Desc:  "changing the content of the variable marked \"secret\" changes the error-free result, but a result does not carry that mark (another variable carries a different mark)",
+					Input: fmt.Sprintf("%s (%s)\n-- secret = %s | %s, other = \"o\" marked %q", p.src, p.mode, lib.DumpValue(c[0]), lib.DumpValue(c[1]), otherMark),
+					Impl:  "run A: " + lib.DumpValue(vals[0]) + "\nrun B: " + lib.DumpValue(vals[1])})
+			}
+		}
+	}
+}
+
+// directedGeneratedAttrs: below the decoder.  Two-run check on the attribute expressions of a block generated
+// from a for_each collection marked at the top: a constant, a null, a value that is null for one element and
+// not for another, in the generated block itself and in a static block nested in it.  Where the value read
+// from the expanded body differs between the two contents of the collection, both values carry the mark
+// (dynblock applies the collection's marks to each expression's result).  Consumers that build a value from
+// the attribute values alone (a single hcldec.BlockSpec, gohcl, direct use of Content) have nothing else.
+func directedGeneratedAttrs(cx *lib.Ctx) {
+	res := cx.Res
+	exprs := []string{`"fixed"`, `null`, `b.value`, `b.value == "none" ? null : b.value`, `b.value == "none" ? "" : null`, `[b.value]`, `b.key`, `other`, `b.value == "none" ? [] : [1]`, `b.value == "none" ? null : 1`}
+	s := cty.StringVal
+	colls := [][2]cty.Value{
+		{cty.ListVal([]cty.Value{s("none")}), cty.ListVal([]cty.Value{s("some")})},
+		{cty.ListVal([]cty.Value{s("x"), s("none")}), cty.ListVal([]cty.Value{s("x"), s("some")})},
+		{cty.MapVal(map[string]cty.Value{"k": s("none")}), cty.MapVal(map[string]cty.Value{"k": s("some")})},
+		{cty.MapVal(map[string]cty.Value{"k": s("none")}), cty.MapVal(map[string]cty.Value{"j": s("none")})},
+		{cty.SetVal([]cty.Value{s("none")}), cty.SetVal([]cty.Value{s("some")})},
+		{cty.TupleVal([]cty.Value{s("none"), s("x")}), cty.TupleVal([]cty.Value{s("some"), s("x")})},
+		{cty.ObjectVal(map[string]cty.Value{"k": s("none")}), cty.ObjectVal(map[string]cty.Value{"k": s("some")})},
+	}
+	schema := &hcl.BodySchema{Blocks: []hcl.BlockHeaderSchema{{Type: "b"}}}
+	for _, ex := range exprs {
+		src := "dynamic \"b\" {\n for_each = coll\n content {\n  x = " + ex + "\n  sub {\n   y = " + ex + "\n  }\n }\n}\n"
+		f, diags := hclsyntax.ParseConfig([]byte(src), "", hcl.InitialPos)
+		if diags.HasErrors() {
+			res.Fail(lib.Failure{Kind: "oracle", Key: "harness:directed-unparseable", Desc: diags.Error(), Input: src})
+			continue
+		}
+		for ci, pair := range colls {
+			input := fmt.Sprintf("%s-- coll = %s | %s (marked %q at the top)", src, lib.DumpValue(pair[0]), lib.DumpValue(pair[1]), Mark)
+			var got [2]map[string]cty.Value
+			for run := 0; run < 2; run++ {
+				got[run] = map[string]cty.Value{}
+				ctx := &hcl.EvalContext{Variables: map[string]cty.Value{"coll": pair[run].Mark(Mark), "other": s("o")}}
+				cx.Guard("directed-generated-attrs", input, func() {
+					content, d := dynblock.Expand(f.Body, ctx).Content(schema)
+					if d.HasErrors() {
+						res.Count("directed-generated-attrs:error")
+						return
+					}
+					for bi, blk := range content.Blocks {
+						bc, rest, d := blk.Body.PartialContent(&hcl.BodySchema{Attributes: []hcl.AttributeSchema{{Name: "x"}}})
+						if d.HasErrors() || bc.Attributes["x"] == nil {
+							res.Count("directed-generated-attrs:error")
+							continue
+						}
+						if v, vd := bc.Attributes["x"].Expr.Value(ctx); !vd.HasErrors() {
+							got[run][fmt.Sprintf("block %d: x", bi)] = v
+						}
+						if sc, _, d := rest.PartialContent(&hcl.BodySchema{Blocks: []hcl.BlockHeaderSchema{{Type: "sub"}}}); !d.HasErrors() && len(sc.Blocks) == 1 {
+							if attrs, d := sc.Blocks[0].Body.JustAttributes(); !d.HasErrors() && attrs["y"] != nil {
+								if v, vd := attrs["y"].Expr.Value(ctx); !vd.HasErrors() {
+									got[run][fmt.Sprintf("block %d: sub.y", bi)] = v
+								}
+							}
+						}
+					}
+				})
+			}
+			for where, va := range got[0] {
+				vb, ok := got[1][where]
+				if !ok {
+					continue
+				}
+				res.Count("directed-generated-attrs:pairs")
+				ua, _ := va.UnmarkDeep()
+				ub, _ := vb.UnmarkDeep()
+				if lib.DumpValue(ua) == lib.DumpValue(ub) {
+					continue
+				}
+				if !hasMark(va) || !hasMark(vb) {
+					shape := "value"
+					if va.IsNull() || vb.IsNull() {
+						shape = "null"
+					}
+					place := "generated-block"
+					if strings.Contains(where, "sub.") {
+						place = "static-block-nested-in-generated-block"
+					}
+					res.Fail(lib.Failure{Kind: "oracle", Key: "mark-lost:dynblock-attribute:" + place + ":" + shape,
+						Desc:  "attribute " + where + " of a block generated from a marked for_each collection differs between the two contents of the collection, but a value does not carry the mark",
+						Input: input, Impl: "run A: " + lib.DumpValue(va) + "\nrun B: " + lib.DumpValue(vb)})
+				}
+			}
+			res.Case(fmt.Sprintf("directed-generated-attrs|%s|%d", ex, ci), true)
 		}
 	}
 }
